@@ -259,23 +259,24 @@ func c01Visited(c *core.Ctx, r *core.Reporter) {
 		r.Unknown("Plan.collectInto/visited", token.NoPos, "not found")
 		return
 	}
-	var visited *ssa.Parameter
-	for _, p := range fn.Params {
-		if m, ok := p.Type().Underlying().(*types.Map); ok {
-			if b, ok := m.Elem().Underlying().(*types.Basic); ok && b.Kind() == types.Bool {
-				visited = p
-			}
+	// the visited set: a map[string]bool that reaches collectInto from its caller — a parameter, or a field of a parameter
+	// that bundles several of them
+	isVisited := func(v ssa.Value) bool {
+		m, ok := v.Type().Underlying().(*types.Map)
+		if !ok {
+			return false
 		}
-	}
-	if visited == nil {
-		r.Unknown("Plan.collectInto/visited", fn.Pos(), "visited-set parameter not found")
-		return
+		if b, ok := m.Elem().Underlying().(*types.Basic); !ok || b.Kind() != types.Bool {
+			return false
+		}
+		ok2, _ := core.OnlyClasses(v, "param:map[string]bool")
+		return ok2
 	}
 	parentPred := fn.Params[len(fn.Params)-1]
 	n := 0
 	core.Instrs(fn, func(in ssa.Instruction) {
 		mu, ok := in.(*ssa.MapUpdate)
-		if !ok || mu.Map != visited {
+		if !ok || !isVisited(mu.Map) {
 			return
 		}
 		n++
@@ -492,14 +493,19 @@ func checkArgSpecs(c *core.Ctx, r *core.Reporter, specs []argSpec) {
 		}
 		okAll := true
 		var seen []string
+		argIdx, found := c.ArgIndex(callee, sp.arg) // follows the parameter when the signature was reordered
+		if !found {
+			r.Unknown(key, sites[0].Pos(), "%s no longer has the parameter this obligation is about (signature changed): re-confirm the instance", sp.callee)
+			continue
+		}
 		for _, s := range sites {
 			args := s.Common().Args
-			if sp.arg >= len(args) {
+			if argIdx >= len(args) {
 				okAll = false
 				continue
 			}
-			ok, _ := core.OnlyClasses(args[sp.arg], sp.allowed...)
-			seen = append(seen, core.Classes(args[sp.arg])...)
+			ok, _ := core.OnlyClasses(args[argIdx], sp.allowed...)
+			seen = append(seen, core.Classes(args[argIdx])...)
 			if !ok {
 				okAll = false
 			}
